@@ -90,8 +90,16 @@ def drive_(a, rng):
     # ---- union of two parts sharing the nodes at least as old as a cutoff
     times = list(ts.nodes_time)
     cutoff = rng.choice(sorted(set(times)))
-    shared = [u for u in range(N) if times[u] >= cutoff]
-    rest = [u for u in range(N) if times[u] < cutoff]
+    # usually the shared part is the ancestral one (new nodes hang below it); sometimes it is the recent one, so that nodes of `other`
+    # mapped to NULL are *parents* of shared nodes (an edge is new when its parent or its child is)
+    above = rng.random() < 0.3
+    case["new_above_shared"] = 1 if above else 0
+    if above:
+        shared = [u for u in range(N) if times[u] <= cutoff]
+        rest = [u for u in range(N) if times[u] > cutoff]
+    else:
+        shared = [u for u in range(N) if times[u] >= cutoff]
+        rest = [u for u in range(N) if times[u] < cutoff]
     rng.shuffle(rest)
     kk = rng.randint(0, len(rest))
     # the shared nodes appear in a different order in the two parts: node_mapping is not the identity on them
@@ -139,8 +147,14 @@ def drive_(a, rng):
             other = tb2
         case.update(union_skip=0, mapping=mapping, ua=A(ta), ub=A(other), uni=A(tu))
     except tskit.LibraryError as e:
-        case["clean_raised"] = 1 if check else 0
         case["union_error"] = str(e)[:100]
+        if above and "TSK_ERR_MUTATION_PARENT_AFTER_CHILD" in str(e):
+            # outside the property's quantifier (covers share an *ancestral* portion): when a new node above the shared part carries a mutation
+            # of unknown time that is the parent of a shared mutation, union appends it after its child and then refuses its own result
+            # (DESIGN 7.3).  Counted, not judged.
+            case["above_refused_mutation_order"] = 1
+        else:
+            case["clean_raised"] = 1        # with or without the equality check: the two parts come from one tree sequence, nothing to refuse
     # inverse law (separable covers, reorder_populations=False / add_populations=False)
     if case["union_skip"] == 0 and not addpop and check and separable(ts, PA, PB):
         c1 = tu.copy()
@@ -207,8 +221,11 @@ def drive_(a, rng):
             tu2 = ta.copy()
             try:
                 tu2.union(tt, mapping, check_shared_equality=chk, add_populations=addpop, record_provenance=False)
-            except tskit.LibraryError:
+            except tskit.LibraryError as e:
                 case["tamper_raised"] = 1
+                if above and "TSK_ERR_MUTATION_PARENT_AFTER_CHILD" in str(e):
+                    case["tamper_skip"] = 1          # refused for the out-of-domain reason above, not because of the tampering
+                    case["above_refused_mutation_order"] = 1
             case["tamper_what"] = what
     return case
 
